@@ -190,6 +190,9 @@ func inCoverIf(ex *Exec, fn *ssa.Function, a []Value) Value {
 		ex.covers[label] = true
 		return nil
 	}
+	if ex.pos >= len(ex.prefix) {
+		ex.flushAsserts()
+	}
 	replay, code := ex.slot()
 	if replay {
 		if code == 7 {
